@@ -44,13 +44,14 @@ CLAIMED = {
              "status with untouched / partial / full stale values; real CBC wrapper with simulated process: not "
              "executable, exit code, missing solution file, Infeasible, Integer infeasible, Unbounded, Stopped "
              "with/without incumbent, unknown status word; real HiGHS wrapper likewise; no solver at all; real "
-             "CBC binary; HiGHS vanishing between look-up and execution; fail-once-then-work plans; three shapes of the "
+             "CBC binary; HiGHS vanishing between look-up and execution; fail-once-then-work and work-once-then-fail plans within one request; three shapes of the "
              "exception; a second back-end with its own behaviour in the default-solver slot) is enumerated for each seeded knotted structure, through both BpSeq.dot_bracket "
              "(solver selection code) and convert_to_dot_bracket(solver); plus seeded histories of 1-12 solves "
              "in one simulated world (one process, persistent solver objects) with independent faults and every consumer "
              "of the notation: elements, both removals, Mapping2D3D.dot_bracket / extended_dot_bracket and "
              "annotator.extract_secondary_structure on the knotted corpus structures (every extended row must encode "
-             "the pairs it encodes in a healthy world).",
+             "the pairs it encodes in a healthy world). When only some solves of a request delivered, the answer must be "
+             "first-come-first-served or optimal, never a mixture.",
         design_ref="DESIGN.md section 3 (C13), 2.4",
         note="Trusted: pulp 3.1.1 wrappers as installed; simulated CBC/HiGHS output formats are as faithful as "
              "pulp's readers require; the HiGHS binary is always the stub. Structures and histories sampled.",
@@ -67,7 +68,8 @@ CLAIMED = {
              "in-process, each interpreter visiting its items in its own seeded order; all digests of one (input, "
              "output kind) must agree. Interpreters also differ in log verbosity and wall-clock date; commands are run again "
              "into the same directory. Differences that need what ran before in the process are replayed as whole "
-             "interpreter contexts.",
+             "interpreter contexts. A listing of all dot-brackets of a ten-stem knotted group (10! orderings) is computed "
+             "by interpreters of its own alongside.",
         design_ref="DESIGN.md section 3 (C14)",
         note="Trusted: sha256. Object-address-dependent hashing is sampled by the same fresh interpreters but cannot "
              "be steered. A 2-element hash-ordered set escapes K seeds with probability 2^-(K-1).",
